@@ -17,7 +17,8 @@ package pipe
 //vf:job C09 thorough VF_C09_Proto writes=2..2 wn=3..3 rn=1..3 close=0..1
 //vf:job C09 thorough VF_C09_ProtoFull
 //vf:job C09 quick VF_C09_ProtoBlockedWriter extra=2,64 rn=1,16
-//vf:replayE C09 VF_C09_FileReadStep VF_C09_FileWriteStep VF_C09_Proto VF_C09_ProtoReaderCloses VF_C09_ProtoFull VF_C09_ProtoBlockedWriter
+//vf:job C09 quick VF_C09_ProtoBlockedWriterReaderCloses kind=0..1
+//vf:replayE C09 VF_C09_FileReadStep VF_C09_FileWriteStep VF_C09_Proto VF_C09_ProtoReaderCloses VF_C09_ProtoFull VF_C09_ProtoBlockedWriter VF_C09_ProtoBlockedWriterReaderCloses
 //vf:opt C09 preempt=2 thorough_preempt=3
 //vf:stub C09 (*os.File).ReadAt/WriteAt/Truncate/Close: byte-store file of ring size (file-backed steps only)
 //vf:assume C09 offset lemmas: ring sizes 4096, 8192, 12288, 4 MiB, 12 MiB and 8 (a fully symbolic 64-bit size makes the remainder undecidable within 60 s in all three back ends); positions and buffer lengths are arbitrary 64-bit values
@@ -536,4 +537,33 @@ func VF_C09_ProtoBlockedWriter() {
 		vfAssert(out[0] == mark[0] && out[4095] == mark[1] && out[total-1] == mark[2], "bytes around the wrap point")
 	}
 	vfAssertTwin(len(out) != total, "twin")
+}
+
+// a writer blocked on a completely full ring is released by the reader's close, with the reader's error
+func VF_C09_ProtoBlockedWriterReaderCloses() {
+	kind := vfParam("kind", 0)
+	r, w := NewSize(1)
+	big := make([]byte, 4096+1)
+	e := errors.New("vf-reader-error")
+	done := make(chan int, 1)
+	go func() {
+		n, err := w.Write(big)
+		vfAssert(err != nil && n <= 4096, "a write that cannot complete must fail once the reader has closed")
+		if kind == 1 {
+			vfAssert(err == e, "blocked writer must get the reader's error")
+		} else {
+			vfAssert(errors.Equal(err, io.ErrClosedPipe), "blocked writer must get closed-pipe")
+		}
+		done <- 1
+	}()
+	vfIdle() // the writer has filled the ring and waits
+	b, _ := r.Buffered()
+	vfAssert(b == 4096, "ring full before the close")
+	if kind == 1 {
+		r.CloseWithError(e)
+	} else {
+		r.Close()
+	}
+	<-done // a writer that stays blocked is a deadlock
+	vfAssertTwin(b == 0, "twin")
 }
